@@ -239,6 +239,25 @@ theorem resolve_acyclic_needs_exponential_rounds :
   decide +kernel
 
 
+/-- **the allocation of resolveVariables is exponential in the number of definitions** (audit round 2;
+known finding `C16-resolvevariables-exponential-allocation`).  There is NO `resolveVariables_alloc`
+theorem with a polynomial bound, and none can exist: the acyclic definitions
+`v00=x, v01=$(v00)$(v00), …, v10=$(v09)$(v09)` (11 entries, values of 121 characters in all) resolve — in the
+favourable order, two substitutions per entry — to a value of 2^10 = 1024 characters for `v10`;
+with 31 entries the value has 2^31 characters and the implementation ends in `std::bad_alloc`.
+The true bound (the value of an entry is at most `L * w^n` characters for `n` entries holding at
+most `w` references and `L` other characters each) is NOT proved here. -/
+theorem resolve_alloc_doubling_witness :
+    let chain : Keyval.Map := ("v00".toList, "x".toList) ::
+      (List.range 10).map (fun i =>
+        let k (j : Nat) : Str := 'v' :: Number.natDigits (j / 10) ++ Number.natDigits (j % 10)
+        (k (i + 1), "$(".toList ++ k i ++ ")$(".toList ++ k i ++ ")".toList))
+    (chain.map (fun kv => kv.2.length)).sum = 121 ∧
+    (resolveVariablesU '$' '(' ')' 3 chain).map (fun m => m.map (fun kv => kv.2.length)) =
+      .ok [1, 2, 4, 8, 16, 32, 64, 128, 256, 512, 1024] := by
+  decide +kernel
+
+
 /- The full-strength termination statement
      `∀ am, ∃ F, ∀ fuel, F ≤ fuel → resolveVariablesU '$' '(' ')' fuel am ≠ .error .hang`
    is FALSE: `resolve_hangs_witness` refutes it (`resolve_termination_false` below). -/
